@@ -71,8 +71,13 @@ def expr_tainted(e: Optional[ast.AST], tainted: Set[str]) -> bool:
 def tainted_names(fn: ast.AST, clean_params: Set[str] = frozenset(), inherited: Set[str] = frozenset()) -> Set[str]:
     t: Set[str] = set(inherited)
     a = fn.args
+    import re as _re
+    scalar = _re.compile(r"^(Optional\[)?(bool|int|float|str|bytes)(\])?$|^(bool|int|float|str|bytes) \| None$|^None \| (bool|int|float|str|bytes)$")
     for x in a.posonlyargs + a.args + a.kwonlyargs:
         if x.arg not in clean_params and x.arg not in ("self", "cls"):
+            ann = ast.unparse(x.annotation).strip("'\"") if x.annotation is not None else ""
+            if scalar.match(ann):
+                continue  # a number / flag / string cannot refer to the extraction target
             t.add(x.arg)
     if a.vararg:
         t.add(a.vararg.arg)
